@@ -93,5 +93,19 @@ CHECKS = {
                 "biaxial / shear with all axis/sym/clamped arguments on grids with symbolic side lengths constrain exactly the documented planes and components with the documented values.",
         "note": "bounded meshes (6-9 points); index sets are concrete per path; the solver's share is path feasibility, membership predicates and value identities.",
     },
+    "C06": {
+        "text": "The real Region / Field code runs on one cell whose nodal coordinates are symbolic. Proved by z3: the sum of the differential volumes equals the exact integral of det(dX/dr) (the integrand is the "
+                "symbolically traced element gradient, integrated exactly over the reference cell), dV >= 0 on valid cells, invariance under a symbolic rigid motion, quad area = area of its two triangles, "
+                "the negative-volume warning on exactly the paths where a dV is negative; interpolation / gradient / hessian reproduce a polynomial with symbolic coefficients at every quadrature point "
+                "(degree <= element order on symbolically affine cells, degree 1 on offset cells), plane-strain padding, axisymmetric hoop term u_r/R; the default quadrature integrates products of shape "
+                "function gradients exactly on affine cells.",
+        "note": "validity = the library's own dV < 0 test assumed False (assumption set checked satisfiable); 1e-9 tolerance (float Gauss points); one cell per family; float32 copies outside.",
+    },
+    "C13": {
+        "text": "RegionBoundary on one symbolic cell (quad4/8/9, hex8) and a two-cell patch: unit normals and unit/orthogonal tangents (root atoms discharged by certificates), normal * area = area vector, area "
+                "vectors of the closed surface sum to zero, each cell's own faces close with only_surface=False, flux of the position vector = dim * volume of the matching volume region, positive area "
+                "elements, point-wise outwardness for quad4; mask selection and ensure_3d padding on concrete meshes.",
+        "note": "validity assumed at the library's dV < 0 test; tolerance 1e-9 for the flux (float Gauss points); hex20/27 not claimed.",
+    },
 }
 NOT_APPLICABLE = {}
